@@ -12,6 +12,12 @@ def splits {α : Type} : List α → List (List α × List α)
   | [] => [([], [])]
   | x :: xs => (splits xs).flatMap fun (a, b) => [(x :: a, b), (a, x :: b)]
 
+/-- a declared property against the looked-up JSON entry -/
+def fieldCheck (look : Option JVal) (optional : Bool) (chk : JVal → Bool) : Bool :=
+  match look with
+  | some v => chk v
+  | none => optional
+
 mutual
 def memberb (D : Decls) : Nat → Ts → JVal → Bool
   | 0, _, _ => false
@@ -33,9 +39,7 @@ def memberb (D : Decls) : Nat → Ts → JVal → Bool
     | .neverArray, .arr [] => true
     | .emptyRecord, .obj [] => true
     | .obj fs, .obj kvs =>
-      (fs.all fun (k, t) => match JVal.lookup k.name kvs with
-        | some v => memberb D f t v
-        | none => k.optional)
+      (fs.all fun (k, t) => fieldCheck (JVal.lookup k.name kvs) k.optional fun v => memberb D f t v)
       && (kvs.all fun (k, _) => fs.any fun (k', _) => k'.name == k)
     | .mapped k v, .obj kvs =>
       kvs.all fun (key, val) => ((keyJson key).any fun kj => memberb D f k kj) && memberb D f v val
